@@ -966,6 +966,9 @@ func TestVerifCX4Trace(t *testing.T) {
 	if m := os.Getenv("CX4_MODE"); m != "" {
 		pr.mode = m
 	}
+	if v, err := strconv.Atoi(os.Getenv("CX4_PROCS")); err == nil && v > 0 {
+		defer runtime.GOMAXPROCS(runtime.GOMAXPROCS(v))
+	}
 	maxRounds, maxLines := 400, 30000
 	if v, err := strconv.Atoi(os.Getenv("CX4_MAXROUNDS")); err == nil && v > 0 {
 		maxRounds = v
